@@ -65,7 +65,15 @@ def hook(run, st):
         exp = {k: v for k, v in exp.items() if not hist.under(k, "extensions/rocfl-locks")}
         if got != exp:
             msgs.append("reset-all: staging tree differs from the tree without the object's staged version: %r" % (hist.snap_diff(exp, got)[:4],))
-    # 5. purge removes exactly the named object and its staged changes, and the directories this leaves empty
+    # 5. purge removes exactly the named object and its staged changes, and the directories this leaves empty;
+    #    a purge / reset-all that is refused, or names an object that does not exist, changes nothing
+    if o in ("purge", "reset_all") and (st.rc != "ok" or (oid not in st.pre["main"] and st.pre["staged"].get(oid) is None)):
+        if st.post_main_snap != st.pre_main_snap:
+            msgs.append("%s of %r (%s; no such object) changed the main repository: %r" % (o, oid, st.rc, hist.snap_diff(st.pre_main_snap, st.post_main_snap)[:4]))
+        a = {k: v for k, v in st.pre_stg_snap.items() if not hist.under(k, "extensions/rocfl-locks")}
+        b = {k: v for k, v in st.post_stg_snap.items() if not hist.under(k, "extensions/rocfl-locks")}
+        if a != b:
+            msgs.append("%s of %r (%s; no such object) changed the staging area: %r" % (o, oid, st.rc, hist.snap_diff(a, b)[:4]))
     if o == "purge" and st.rc == "ok":
         exp_main = st.pre_main_snap
         if oid in st.pre["main"]:
@@ -87,6 +95,12 @@ def hook(run, st):
 def run(ctx):
     proof = common.proof_stage(ctx)
     n, length = (14, 45) if ctx.quick() else (150, 60)
+    scripted = []
+    for lay in ("0002", "0006", "0007", "0004"):
+        for ext in (False, True):
+            cfg = {"layout": lay, "repo_spec": "1.1", "obj_spec": "1.1", "alg": "sha512", "cdir": "content", "pad": 0,
+                   "ext_staging": ext, "fresh_handle": False}
+            scripted.append((cfg, hist.purge_scenario(cfg)))
     return histcheck.run_history_check(
-        ctx, proof, hook, n, length,
-        rule="adaptive random histories over 3 objects alive at a time, default and external staging, 8 layout variants; snapshots and the full read API (listing, every file, log, diffs, validate) compared around every step; distinct = distinct (operation, arguments, result class)")
+        ctx, proof, hook, n, length, scripted=scripted,
+        rule="8 scripted histories (purge / reset-all of every never-existing id related to committed objects under layouts 0002/0006/0007/0004) + adaptive random histories over 3 objects alive at a time, default and external staging, 8 layout variants; snapshots and the full read API (listing, every file, log, diffs, validate) compared around every step; distinct = distinct (operation, arguments, result class)")
